@@ -25,6 +25,10 @@ CHECKS = {
    technique="TLA+ payload-merge specification (GqlDefer over GqlRef) + TLC trace validation of payload sequences of generated servers under gated group completion orders",
    text="Random and hand-written operations with @defer (nested, in lists, if true/false/variable, shared labels) x fault plans x group completion orders are executed on servers generated from /repo; TLC validates each payload sequence against GqlDefer: merged payloads equal the reference result of the undeferred operation (outside the subtree a confined failure nulls), each (path,label) group at most once, every payload deliverable at arrival, hasNext true on all but the last, no error the plain execution lacks. Two known deviations of the pinned tree are admitted by a named constant in a second configuration so that the rest of such traces is still checked.",
    note="Trusted: TLC, universal resolver, the Go-side classifier only NAMES a rejected trace's finding class (verdict is TLC's)."),
+ "C09": dict(level=MC, ref="DESIGN.md §5 C09, notes/C09.md",
+   technique="TLA+ decision model of transport selection / negotiation / GET guard / status (Http.tla) exhaustively checked by TLC; every enumerated request replayed against the real handler.Server",
+   text="Http.tla models one request through one handler.Server (SelectTransport, ParseUrl, Negotiate, Decode, CreateOpCtx, GuardGET, Dispatch, Write) at implementation level and states the property independently (GetNeverMutates, ExecutesNamedOperation, Non2xxRanNothing, ExecutedIs200, ProtocolErrorStatus, ContentTypeNegotiated, ImplConforms ...); TLC checks the full finite product of server configurations x requests, and every enumerated request is replayed over a real net/http connection against the real server (several header spellings), comparing chosen transport, status, Content-Type, body kind and the set of executed root fields with the prescription. Alarms only for departures from the property level; implementation-level differences inside the property are counted as drift.",
+   note="Trusted: TLC, the hand-written ExecutableSchema of the harness, net/http. Accept q-values and the multipart 'request body too large' status are deliberately not decided (statement silent)."),
 }
 NOT_YET = {}
 def main():
